@@ -31,7 +31,26 @@ pub const ARGS: &[&str] = &["", "int", "java.lang.String", "int,long", "a.b", "a
 pub const TYPES: &[&str] = &["void", "int", "java.lang.String", "a.b[]", "o.A", "boolean", "é.T"];
 pub const FILES: &[&str] = &["Foo.kt", "Bar.java", "R8$$SyntheticClass", "SourceFile", "Ünï.kt", "x"];
 
+/// a name whose LEB128 length prefix needs 3 bytes (> 16383 bytes)
+pub fn huge_name(rng: &mut Rng) -> String {
+    let n = rng.range(16380, 16500);
+    let mut s = String::from("h.");
+    while s.len() < n {
+        s.push((b'a' + (rng.below(26) as u8)) as char);
+    }
+    s
+}
+
 pub fn long_name(rng: &mut Rng) -> String {
+    if rng.pct(20) {
+        // around the 1-byte / 2-byte length-prefix boundary exactly
+        let n = rng.pick(&[126usize, 127, 128, 129, 255, 256]);
+        let mut s = String::from("p.");
+        while s.len() < n {
+            s.push((b'a' + (rng.below(26) as u8)) as char);
+        }
+        return s;
+    }
     let n = rng.range(128, 140);
     let mut s = String::from("p.");
     while s.len() < n {
@@ -60,6 +79,8 @@ pub struct Cfg {
     pub noise_pct: usize,
     pub term: Option<Term>,
     pub many_similar: bool,
+    /// percentage of class / foreign-class names that are > 16 KiB
+    pub huge_pct: usize,
 }
 
 impl Cfg {
@@ -73,6 +94,7 @@ impl Cfg {
             noise_pct: 12,
             term: None,
             many_similar: false,
+            huge_pct: 0,
         }
     }
     pub fn hostile() -> Self {
@@ -81,6 +103,10 @@ impl Cfg {
 }
 
 fn small_line(rng: &mut Rng, hostile: bool) -> u64 {
+    if rng.pct(4) {
+        // byte / word boundaries
+        return rng.pick(&[127u64, 128, 255, 256, 257, 32767, 32768, 65535, 65536, 65537, (1 << 24) - 1, 1 << 24, 999, 1000, 9999, 10000]);
+    }
     match rng.below(100) {
         0..=69 => rng.below(14) as u64,
         70..=84 => rng.range(14, 70) as u64,
@@ -230,6 +256,8 @@ pub fn gen_mapping(rng: &mut Rng, cfg: &Cfg) -> GenMapping {
         used.push(obf.clone());
         let orig: String = if cfg.empty_names && rng.pct(3) {
             String::new()
+        } else if cfg.huge_pct > 0 && rng.pct(cfg.huge_pct) {
+            huge_name(rng)
         } else if rng.pct(5) {
             long_name(rng)
         } else {
